@@ -802,7 +802,7 @@ proof fn lemma_word_facts()
 //@@|                    }
 //@@|                    assert(val3(d0, d1, d2) % 2 == 0);
 //@@|                }
-//@@ after "d2 >>= 1;"
+//@@ loopend 3
 //@@|                proof {
 //@@|                    lemma_shr3(x0_, x1_, x2_, u0, u1, u2);
 //@@|                    lemma_shr3(e0, e1, e2, d0, d1, d2);
@@ -845,13 +845,13 @@ proof fn lemma_word_facts()
 //@@|                }
 //@@|                assert(val3(a0, a1, a2) % 2 == 0);
 //@@|            }
-//@@ after "a2 >>= 1;"
+//@@ loopend 4
 //@@|            proof {
 //@@|                lemma_shr3(e0, e1, e2, a0, a1, a2);
 //@@|                g = lemma_g_halve_v(xi, val3(u0, u1, u2), vprev as int, val3(e0, e1, e2), val3(d0, d1, d2), g, first);
 //@@|                first = false;
 //@@|            }
-//@@ before "let mut a = (a0 as u128) + ((a1 as u128) << 64);"
+//@@ loopafter 1
 //@@|    let ghost mut ka: int = g.ka;
 //@@|    proof {
 //@@|        lemma_g_final(xi, val3(u0, u1, u2), val3(a0, a1, a2), val3(d0, d1, d2), g);
@@ -859,13 +859,13 @@ proof fn lemma_word_facts()
 //@@ loop? 5
 //@@|        invariant
 //@@|            word_facts(), 0 < xi < P, val3(a0, a1, a2) * xi == 1 + ka * P, a as int == val2(a0, a1),
-//@@ after "a = (a0 as u128) + ((a1 as u128) << 64); }"
+//@@ tail
 //@@|    proof {
 //@@|        lemma_eqm_multiple(1, ka);
 //@@|    }
 //@@ before "let (t0, t1, t2) = sub_192x192(a0, a1, a2,"
 //@@|        let ghost aold = val3(a0, a1, a2);
-//@@ after "a2 = t2; a = (a0 as u128) + ((a1 as u128) << 64);"
+//@@ loopend? 5
 //@@|        proof {
 //@@|            assert(val3(a0, a1, a2) == aold - P);
 //@@|            assert((aold - P) * xi == 1 + (ka - xi) * P) by (nonlinear_arith) requires aold * xi == 1 + ka * P;
